@@ -18,6 +18,13 @@ RULE = ("stateful histories building mixtures with substances of every kind in c
         "both selected and unselected substances; distinct by (selector kind, object kind, direct/recipe, kinds present)")
 ASSUMPTIONS = ["class constants: SOLID=1, LIQUID=2, ENZYME=3 (public attributes of Substance)",
                "volume tolerance: one grain per remaining substance (remove does not round the recomputed volume)"]
+def shard_config(shard, tier):
+    """two of eight shards run under other documented default densities: solids/enzymes without volume (inf), and
+    finite densities other than 1"""
+    return {5: {'default_solid_density': float('inf'), 'default_enzyme_density': float('inf')},
+            6: {'default_solid_density': 2.5, 'default_enzyme_density': 0.4}}.get(shard % 8)
+
+
 REQUIRED_CLASSES = {'quick': ['sel:substance', 'sel:class', 'obj:c', 'obj:p'],
                     'thorough': ['sel:substance', 'sel:class', 'sel:absent', 'obj:c', 'obj:p', 'recipe']}
 
